@@ -258,7 +258,7 @@ def build_jobs(pid, tier, seed):
             cfgs += base_cfgs(seed, 4 if quick else 20, 0)
         else:
             cfgs = base_cfgs(seed, 8 if quick else 60, 20 if quick else 300)
-            cfgs += offset_cfgs(p, 12 if quick else 400, seed)
+            cfgs += offset_cfgs(p, 36 if quick else 600, seed)
         jobs.append((p['name'], p, cfgs))
     for p in random_programs(pid, tier, seed):
         if pid == 'C13':
